@@ -1188,6 +1188,17 @@ struct TcpEngine : Engine
 				p.cfg["ab0cap"] = rng.range(mtu + 40, (mtu + 40) * 3);
 			}
 		}
+		// the path MTU belongs to the two endpoints, not to what a NAT on the way makes one of them look like
+		if (c20 && rng.chance(0.3))
+		{
+			int64_t const n = p.c("aon");
+			if (n < 4)
+			{
+				std::string const q = "ao" + std::to_string(n);
+				p.cfg[q + "kind"] = 1; p.cfg[q + "nat"] = 0x0a630001; p.cfg[q + "bw"] = 0; p.cfg[q + "lat"] = 0; p.cfg[q + "cap"] = 0;
+				p.cfg["aon"] = n + 1;
+			}
+		}
 		// traffic
 		int64_t const budget_bytes = c06 ? (rng.chance(0.2) ? rng.logu(1, 2000000) : rng.logu(finite ? 3000 : 1, 300000)) : rng.logu(1, 200000);
 		int const nops = int(rng.range(2, tier ? 40 : 30));
